@@ -89,7 +89,7 @@ def runRead (kv : KV) : String :=
   | none => "bad-op"
   | some (F, dvs) =>
     match kv.get? "old" with
-    | some "2" => showOutcome patched F dvs ++ " || " ++ showOutcome coded F dvs
+    | some "2" => showOutcome patched F dvs ++ " || " ++ showOutcome head F dvs ++ " || " ++ showOutcome coded F dvs
     | _ => match parseOld kv with
       | none => "bad-op"
       | some cfg => showOutcome cfg F dvs
